@@ -584,8 +584,13 @@ theorem h3_setlock (s : S) (lk : Option (Blk × Bool)) (lr : Int) (y : Option Bl
     · have h5' : s.step ≤ stPrevoteWait := h5
       unfold stPrecommit at h6; unfold stPrevoteWait at h5'; omega
 
-/-- the Finalize effect: allowed by ComInv -/
-theorem h3_finalize' {R : Nat} (s : S) (b : Blk) (hst : s.stuck = false) (h8 : s.step = stCommit)
+/-- the block held in `cur` has a known +2/3 precommit quorum of one round (whatever the step) -/
+def ComQ (L : List VoteRec) (s : S) : Prop :=
+  s.stuck = false →
+    ∃ r b, s.cur.id = some b ∧ quorumKnown L s.n (sentOf s.eff) s.height .precommit r (some b)
+
+/-- the Finalize effect: allowed when the block in `cur` has a known commit quorum -/
+theorem h3_finalize' {R : Nat} (s : S) (b : Blk) (hst : s.stuck = false) (h8 : ComQ L s)
     (hcur : s.cur.id = some b) (hh : H3 L base R s) :
     H3 L base R (s.emit (.finalize s.height b)) := by
   have hs : sentOf (s.emit (.finalize s.height b)).eff = sentOf s.eff := by simp
@@ -597,12 +602,12 @@ theorem h3_finalize' {R : Nat} (s : S) (b : Blk) (hst : s.stuck = false) (h8 : s
   · refine t3_append _ hh.tr ?_ (by intro w vs h'; cases h')
     intro h b' he
     cases he
-    obtain ⟨r, b'', h1, h2⟩ := hh.com hst h8
+    obtain ⟨r, b'', h1, h2⟩ := h8 hst
     rw [hcur] at h1
     cases h1
     exact ⟨r, h2⟩
 
-theorem h3_finalize {R : Nat} (s : S) (b : Blk) (hst : s.stuck = false) (h8 : s.step = stCommit)
+theorem h3_finalize {R : Nat} (s : S) (b : Blk) (hst : s.stuck = false) (h8 : ComQ L s)
     (hcur : s.cur.id = some b) (hh : H3 L base R s) :
     H3 L base R { s.emit (.finalize s.height b) with dbHeight := s.height } :=
   h3_same (s := s.emit (.finalize s.height b)) (h3_finalize' s b hst h8 hcur hh) (Nat.le_refl _) rfl rfl rfl rfl
